@@ -705,19 +705,13 @@ class LowerToIRVisitor(Visitor.DefaultVisitor):
             store.SetStore(initValue)
 
     def v_Module(self, module: ast.Module, ctx: Context):
-        import itertools
-
         ctx.OnEnterModule(module)
 
         ctx.Module.Metadata["functions"] = [
             f.GetType() for f in module.GetFunctions()
         ]
-        ctx.Module.Metadata["types"] = {
-            d.GetName(): d.GetType()
-            for d in itertools.chain(
-                *[gd.GetDeclarations() for gd in module.GetDeclarations()]
-            )
-        }
+        # The structure types of this module, for modules importing it
+        ctx.Module.Metadata["types"] = [t.GetType() for t in module.GetTypes()]
 
         for importName in module.GetImports():
             ctx.Module.AddImport(importName)
